@@ -381,7 +381,8 @@ impl<T: Clone + Eq + Debug + Default> WrappedBlock<T> {
 
         if !self.word.is_empty() {
             self.pre_wrapped = false;
-            let space_in_line = self.width - self.line.len;
+            // The line can already be wider than the width if overflow is allowed.
+            let space_in_line = self.width.saturating_sub(self.line.len);
             let space_needed = self.wslen + self.wordlen;
             if space_needed <= space_in_line {
                 html_trace!("Got enough space");
@@ -450,7 +451,7 @@ impl<T: Clone + Eq + Debug + Default> WrappedBlock<T> {
     fn flush_word_hard_wrap(&mut self) -> Result<()> {
         use self::TaggedLineElement::Str;
 
-        let mut lineleft = self.width - self.line.len;
+        let mut lineleft = self.width.saturating_sub(self.line.len);
         for element in self.word.remove_items() {
             if let Str(piece) = element {
                 let w = piece.width();
